@@ -14,8 +14,8 @@ repaired tree (nil rules skipped in `LoadRules`; circuit breaker per-resource pa
   by the controller and by the caller.  Constructors that write defaults back into the object
   (`WarmUpColdFactor ≤ 1 → 3`, `SpecificItems nil → {}`) therefore change the *cache*: `normIn`.
 * Controller reuse (`calculateReuseIndexFor`) is C14's subject.  It is invisible here: a reused controller
-  is bound to an old rule that is field-wise equal to the new one on the recorded fields (see `*_equals_iff`
-  in `Lemmas/Rules.lean` for the two modules where the getter reads the controller's rule).
+  is bound to an old rule that is field-wise equal to the new one on the recorded fields (`flowIsEqualsTo_iff`, `hotEquals_canon`
+  in `Lemmas/Rules.lean`, for the two modules where the getter reads the controller's rule).
 -/
 namespace Sentinel.Rules
 
@@ -75,6 +75,12 @@ def flowBuildable (r : FlowRule) : Bool := (r.tcs = 0 ∨ r.tcs = 1 ∨ r.tcs = 
 /-- `NewWarmUpTrafficShapingCalculator` writes the default cold factor into the caller's rule -/
 def flowNorm (r : FlowRule) : FlowRule := if r.tcs = 1 ∧ r.wuCf ≤ 1 then { r with wuCf := 3 } else r
 
+/-- `(*Rule).isEqualsTo` of flow (`Float64Equals` is exact on halves): decides controller reuse -/
+def flowIsEqualsTo (a b : FlowRule) : Bool :=
+  a.res == b.res && a.rel == b.rel && a.ref == b.ref && a.statMs == b.statMs && a.tcs == b.tcs && a.cb == b.cb &&
+  a.th2 == b.th2 && a.maxQ == b.maxQ && a.wuPeriod == b.wuPeriod && a.wuCf == b.wuCf &&
+  a.lowMem == b.lowMem && a.highMem == b.highMem && a.memLow == b.memLow && a.memHigh == b.memHigh
+
 structure IsoRule where
   res : String
   metric : Int     -- MetricType (int32): 0 Concurrency
@@ -117,6 +123,17 @@ def hotBuildable (r : HotRule) : Bool := (r.cb = 0 ∨ r.cb = 1) ∧ (r.metric =
 
 /-- `newBaseTrafficShapingControllerWithMetric` replaces a nil `SpecificItems` by an empty map in the caller's rule -/
 def hotNorm (r : HotRule) : HotRule := if r.items = 0 then { r with items := 1 } else r
+
+/-- `(*Rule).Equals` of hotspot: decides controller reuse -/
+def hotEquals (a b : HotRule) : Bool :=
+  a.res == b.res && a.metric == b.metric && a.cb == b.cb && a.cap == b.cap && a.pidx == b.pidx && a.pkey == b.pkey &&
+  a.th == b.th && a.dur == b.dur && a.items == b.items &&
+  (if a.cb = 0 then a.burst == b.burst else if a.cb = 1 then a.maxQ == b.maxQ else false)
+
+/-- what the getters' canonical printing shows of a hotspot rule: `BurstCount` only under Reject,
+    `MaxQueueingTimeMs` only under Throttling -/
+def hotCanon (r : HotRule) : HotRule :=
+  { r with maxQ := if r.cb = 1 then r.maxQ else 0, burst := if r.cb = 0 then r.burst else 0 }
 
 structure CbRule where
   res : String
@@ -363,6 +380,16 @@ def latestOutStep (L : String → Option OutRule) : OOp → (String → Option O
   | .loadRes res rule => if res = "" then L else upd L res rule
 
 def latestOut (ops : List OOp) : String → Option OutRule := ops.foldl latestOutStep (fun _ => none)
+
+/-- classifier of the finding `outlier-invalid-keeps-old`: the resources whose most recent rule came through the
+    per-resource path and was refused (so that an older rule may still be in force) -/
+def outRefused (rule : Option OutRule) : Bool := match rule with | some r => outCheck r != .ok | none => false
+
+def taintStep (T : List String) : OOp → List String
+  | .loadAll _ => []
+  | .loadRes res rule => if res = "" then T else if outRefused rule then res :: T else T.filter (· ≠ res)
+
+def taintOut (ops : List OOp) : List String := ops.foldl taintStep []
 
 /-! ## Probe traffic: the decision of one request after an idle gap, as a function of the enforced rules
 
